@@ -101,6 +101,14 @@ func checkProperty(prog *Program, prop, tier string, seed, timeoutS int, loadS f
 			}
 		}
 	}
+	// functions with a failed proof obligation: their unreachable-return (cover) failures are a consequence
+	// of assuming the failed check afterwards, not a separate vacuity problem
+	failedFn := map[string]bool{}
+	for _, o := range all {
+		if !o.ExpectSat && o.Status != "unsat" {
+			failedFn[o.Fn] = true
+		}
+	}
 	nObl, nDis := 0, 0
 	var samples []any
 	solverTime := 0.0
@@ -108,7 +116,7 @@ func checkProperty(prog *Program, prop, tier string, seed, timeoutS int, loadS f
 	for _, o := range all {
 		solverTime += o.Seconds
 		if o.ExpectSat {
-			if o.Status == "unsat" {
+			if o.Status == "unsat" && !failedFn[o.Fn] {
 				viols = append(viols, violation{obl: o.Name, reason: "vacuity: " + o.Name + " is unsatisfiable (contradictory assumptions)", output: o.Output, pos: o.Pos})
 			}
 			continue
